@@ -280,9 +280,8 @@ StoreCommit(p) ==
 \* Get(p,k): lookup under the shard lock; a hit opens the lowest free reader handle on the
 \* entry's container
 FreeHandles == {h \in 1..MaxHandles : ~handles[h].open}
-Get(p, k) ==
+GetBody(p, k) ==
     /\ Ready(p, <<"get", k>>)
-    /\ lock[ShardOf[k]] = Free
     /\ Finish(p)
     /\ IF ~entries[k].present
        THEN UNCHANGED <<entries, handles, clock>>           \* ErrCacheEntryNotFound
@@ -297,6 +296,8 @@ Get(p, k) ==
             /\ entries' = [entries EXCEPT ![k].la = clock]
             /\ clock' = Tick
     /\ UNCHANGED <<path, objs, bytes, count, dead, lock, op, nextVer, jan, limit, lastEv>>
+
+Get(p, k) == lock[ShardOf[k]] = Free /\ GetBody(p, k)
 
 \* one Read call on handle h: returns the next chunk of whatever the container holds now.
 \* The handle goes "bad" as soon as it returns a chunk that is not chunk pos+1 of the body
